@@ -352,56 +352,108 @@ theorem policy_dominates (reqs : List Req) : Dominates (policy reqs) reqs := by
   have := (lookup_policy_iff.mp (lookup_policy_some hd)).2 r hr rfl
   exact this
 
-/-- invariant of every adapted entry -/
-def EntryOk (F : Facts) (e : Entry) : Prop :=
-  e.decision = adaptBestEffort F e.opsets e.node ∧ Dominates e.opsets (kindReq F e.node.kind)
+/-- Requirements that are already among `b` do not change what the policy answers. -/
+theorem lookup_policy_absorb {a b : List Req} (h : ∀ r ∈ a, r ∈ b) (d : String) :
+    lookup d (policy (a ++ b)) = lookup d (policy b) := by
+  apply Option.ext
+  intro v
+  show (lookup d (policy (a ++ b)) = some v) ↔ (lookup d (policy b) = some v)
+  rw [lookup_policy_iff, lookup_policy_iff]
+  constructor
+  · rintro ⟨⟨r, hr, h1, h2⟩, hall⟩
+    refine ⟨⟨r, ?_, h1, h2⟩, fun r' hr' => hall r' (List.mem_append.mpr (Or.inr hr'))⟩
+    rcases List.mem_append.mp hr with hr | hr
+    · exact h r hr
+    · exact hr
+  · rintro ⟨⟨r, hr, h1, h2⟩, hall⟩
+    refine ⟨⟨r, List.mem_append.mpr (Or.inr hr), h1, h2⟩, fun r' hr' => ?_⟩
+    rcases List.mem_append.mp hr' with hr' | hr'
+    · exact hall r' (h r' hr')
+    · exact hall r' hr'
+
+/-- invariant of every adapted entry of a build whose model requirement is `ctx`: the decision is
+    `adapt_best_effort` on the entry's opsets, these dominate the node's own requirement, and they
+    answer every lookup exactly like the opsets of the whole build -/
+def EntryOk (F : Facts) (ctx : List Req) (e : Entry) : Prop :=
+  e.decision = adaptBestEffort F e.opsets e.node ∧ Dominates e.opsets (kindReq F e.node.kind) ∧
+    ∀ d, lookup d e.opsets = lookup d (policy ctx)
 
 mutual
-theorem adaptGraph_ok (F : Facts) (extra : List Req) : ∀ g : PGraph, ∀ e ∈ adaptGraph F extra g, EntryOk F e
+theorem adaptBody_ok (F : Facts) (ctx : List Req) : ∀ g : PGraph,
+    (∀ r ∈ reqGraph F g, r ∈ ctx) → ∀ e ∈ adaptBody F ctx g, EntryOk F ctx e
   | .mk nodes => by
-    intro e he
-    simp only [adaptGraph] at he
-    refine adaptNodes_ok F _ nodes ?_ e he
-    apply (policy_dominates _).mono
-    intro r hr
-    simp only [reqGraph, List.mem_append, List.mem_cons]
-    exact Or.inl (Or.inr hr)
-theorem adaptNodes_ok (F : Facts) (opsets : List Req) : ∀ ns : List PNode,
-    Dominates opsets (reqNodes F ns) → ∀ e ∈ adaptNodes F opsets ns, EntryOk F e
-  | [] => by intro _ e he; simp [adaptNodes] at he
+    intro hsub e he
+    simp only [adaptBody] at he
+    refine adaptNodes_ok F ctx _ nodes ?_ (lookup_policy_absorb hsub) ?_ e he
+    · apply (policy_dominates _).mono
+      intro r hr
+      simp only [reqGraph, List.mem_append, List.mem_cons]
+      exact Or.inl (Or.inr hr)
+    · intro r hr
+      apply hsub
+      simp only [reqGraph, List.mem_cons]
+      exact Or.inr hr
+theorem adaptNodes_ok (F : Facts) (ctx opsets : List Req) : ∀ ns : List PNode,
+    Dominates opsets (reqNodes F ns) → (∀ d, lookup d opsets = lookup d (policy ctx)) →
+    (∀ r ∈ reqNodes F ns, r ∈ ctx) → ∀ e ∈ adaptNodes F ctx opsets ns, EntryOk F ctx e
+  | [] => by intro _ _ _ e he; simp [adaptNodes] at he
   | n :: ns => by
-    intro h e he
+    intro h hag hsub e he
     simp only [adaptNodes, List.mem_append] at he
     rcases he with he | he
-    · exact adaptNode_ok F opsets n (h.mono (by intro r hr; simp only [reqNodes, List.mem_append]; exact Or.inl hr)) e he
-    · exact adaptNodes_ok F opsets ns (h.mono (by intro r hr; simp only [reqNodes, List.mem_append]; exact Or.inr hr)) e he
-theorem adaptNode_ok (F : Facts) (opsets : List Req) : ∀ n : PNode,
-    Dominates opsets (reqNode F n) → ∀ e ∈ adaptNode F opsets n, EntryOk F e
+    · exact adaptNode_ok F ctx opsets n
+        (h.mono (by intro r hr; simp only [reqNodes, List.mem_append]; exact Or.inl hr)) hag
+        (by intro r hr; apply hsub; simp only [reqNodes, List.mem_append]; exact Or.inl hr) e he
+    · exact adaptNodes_ok F ctx opsets ns
+        (h.mono (by intro r hr; simp only [reqNodes, List.mem_append]; exact Or.inr hr)) hag
+        (by intro r hr; apply hsub; simp only [reqNodes, List.mem_append]; exact Or.inr hr) e he
+theorem adaptNode_ok (F : Facts) (ctx opsets : List Req) : ∀ n : PNode,
+    Dominates opsets (reqNode F n) → (∀ d, lookup d opsets = lookup d (policy ctx)) →
+    (∀ r ∈ reqNode F n, r ∈ ctx) → ∀ e ∈ adaptNode F ctx opsets n, EntryOk F ctx e
   | .mk k np c subs i => by
-    intro h e he
+    intro h hag hsub e he
     simp only [adaptNode, List.mem_cons] at he
+    have hsubs : ∀ r ∈ reqGraphs F subs, r ∈ ctx := by
+      intro r hr; apply hsub; simp only [reqNode, List.mem_append]; exact Or.inr hr
     rcases he with he | he
     · subst he
-      refine ⟨rfl, h.mono ?_⟩
+      refine ⟨rfl, h.mono ?_, hag⟩
       intro r hr
       simp only [reqNode, List.mem_append]
       exact Or.inl hr
     · cases k with
       | func d v => simp at he
-      | internal => exact adaptBodies_ok F subs e he
-      | intro => exact adaptBodies_ok F subs e he
-      | inline a b => exact adaptBodies_ok F subs e he
-      | op d o v => exact adaptBodies_ok F subs e he
-theorem adaptBodies_ok (F : Facts) : ∀ gs : List PGraph, ∀ e ∈ adaptBodies F gs, EntryOk F e
-  | [] => by intro e he; simp [adaptBodies] at he
+      | internal => exact adaptBodies_ok F ctx subs hsubs e he
+      | intro => exact adaptBodies_ok F ctx subs hsubs e he
+      | inline a b => exact adaptBodies_ok F ctx subs hsubs e he
+      | op d o v => exact adaptBodies_ok F ctx subs hsubs e he
+theorem adaptBodies_ok (F : Facts) (ctx : List Req) : ∀ gs : List PGraph,
+    (∀ r ∈ reqGraphs F gs, r ∈ ctx) → ∀ e ∈ adaptBodies F ctx gs, EntryOk F ctx e
+  | [] => by intro _ e he; simp [adaptBodies] at he
   | g :: gs => by
-    intro e he
+    intro hsub e he
     simp only [adaptBodies, List.mem_append] at he
     rcases he with he | he
-    · exact adaptGraph_ok F [] g e he
-    · exact adaptBodies_ok F gs e he
+    · exact adaptBody_ok F ctx g
+        (by intro r hr; apply hsub; simp only [reqGraphs, List.mem_append]; exact Or.inl hr) e he
+    · exact adaptBodies_ok F ctx gs
+        (by intro r hr; apply hsub; simp only [reqGraphs, List.mem_append]; exact Or.inr hr) e he
 end
 
+/-- Every entry of a build — the graph itself and all bodies below it, at any depth. -/
+theorem adaptGraph_ok (F : Facts) (extra : List Req) : ∀ g : PGraph,
+    ∀ e ∈ adaptGraph F extra g, EntryOk F (reqGraph F g ++ extra) e
+  | .mk nodes => by
+    intro e he
+    simp only [adaptGraph] at he
+    refine adaptNodes_ok F _ _ nodes ?_ (fun _ => rfl) ?_ e he
+    · apply (policy_dominates _).mono
+      intro r hr
+      simp only [reqGraph, List.mem_append, List.mem_cons]
+      exact Or.inl (Or.inr hr)
+    · intro r hr
+      simp only [reqGraph, List.mem_append, List.mem_cons]
+      exact Or.inl (Or.inr hr)
 
 /-! ## the decision tree against the schema history -/
 
@@ -630,5 +682,10 @@ theorem allNames_nodup (nOut : Nat → Nat) (conv : Nat → List Nat) (es : List
     rw [h1] at h2
     have : e.node.id = e'.node.id := Option.some.inj h2
     exact hid.1 (List.mem_map.mpr ⟨e', he', this.symm⟩)
+
+theorem entryValid_congr {a b : List Req} (h : ∀ d, lookup d a = lookup d b) (e : Entry) :
+    entryValid a e = entryValid b e := by
+  unfold entryValid
+  simp only [h]
 
 end Opset
